@@ -76,6 +76,29 @@ def oracle(ck, tier, deep):
                 if np.abs(got - ref).max() > 1e-9 * max(1.0, np.abs(ref).max()):
                     ck.violation(dict(site="rbasex", clause="reg-zero"), dict(n=n, order=order, reg=list(reg), image=im.tolist()),
                                  f"rbasex reg={reg} differs from reg=None by {np.abs(got - ref).max():.3g}")
+    # … in whatever order the requests come within one session (a regulariser must not leave anything behind in the cached basis):
+    # the zero-strength forms first, then no regularisation, then a forward transform, against values from a clean cache
+    for n in ([11, 21] if not deep else [9, 11, 21, 41]):
+        im = rng.random((n, n))
+        for order in (2, 4):
+            abel.rbasex.cache_cleanup()
+            ref = quiet(abel.rbasex.rbasex_transform, im, order=order)[1].cos()
+            ref_f = quiet(abel.rbasex.rbasex_transform, im, order=order, direction="forward")[1].cos()
+            abel.rbasex.cache_cleanup()
+            seq = [("SVD", 0), ("diff", 0), ("L2", 0), None]
+            seq = [seq[i] for i in rng.permutation(4)]
+            ck.count(("S.reg0.rbasex-order", n, order), suite="S.equivalence")
+            for reg in seq + ["forward"]:
+                if reg == "forward":
+                    got, want = quiet(abel.rbasex.rbasex_transform, im, order=order, direction="forward")[1].cos(), ref_f
+                else:
+                    got, want = quiet(abel.rbasex.rbasex_transform, im, order=order, reg=reg)[1].cos(), ref
+                if np.abs(got - want).max() > 1e-9 * max(1.0, np.abs(want).max()):
+                    ck.violation(dict(site="rbasex", clause="reg-zero"), dict(n=n, order=order, session=[list(r) if isinstance(r, tuple) else r for r in seq],
+                                                                              at=list(reg) if isinstance(reg, tuple) else reg, image=im.tolist()),
+                                 f"rbasex: in the session {seq} + forward, the call with {reg} differs from its clean-cache value by {np.abs(got - want).max():.3g}")
+                    break
+    abel.rbasex.cache_cleanup()
     # 3. non-negative solvers = unconstrained when the unconstrained solution is feasible
     for n in sizes:
         if n < 4:
